@@ -14,6 +14,27 @@ use serde_json::json;
 
 static CALLS: AtomicUsize = AtomicUsize::new(0);
 
+/// Bytes currently allocated by the whole process: the "retained state" oracle that does not depend
+/// on which container of the library holds on to something.
+struct Counting;
+static LIVE_BYTES: std::sync::atomic::AtomicIsize = std::sync::atomic::AtomicIsize::new(0);
+unsafe impl std::alloc::GlobalAlloc for Counting {
+    unsafe fn alloc(&self, l: std::alloc::Layout) -> *mut u8 {
+        LIVE_BYTES.fetch_add(l.size() as isize, Ordering::Relaxed);
+        std::alloc::System.alloc(l)
+    }
+    unsafe fn dealloc(&self, p: *mut u8, l: std::alloc::Layout) {
+        LIVE_BYTES.fetch_sub(l.size() as isize, Ordering::Relaxed);
+        std::alloc::System.dealloc(p, l)
+    }
+    unsafe fn realloc(&self, p: *mut u8, l: std::alloc::Layout, n: usize) -> *mut u8 {
+        LIVE_BYTES.fetch_add(n as isize - l.size() as isize, Ordering::Relaxed);
+        std::alloc::System.realloc(p, l, n)
+    }
+}
+#[global_allocator]
+static ALLOC: Counting = Counting;
+
 fn c() {
     CALLS.fetch_add(1, Ordering::Relaxed);
 }
@@ -791,6 +812,130 @@ fn main() {
                 }
             }
             extra = json!({"rounds": 12, "rounds_with_a_flush_inside_report_during_the_cancel": rounds});
+        }
+        "steady-state-heap" | "steady-state-heap-cancelable" => {
+            // the same mixed round of finished traces again and again: whatever the collector and
+            // the threads keep after a round must not grow from round to round. Measured as live
+            // heap bytes of the process after each round's cycles, reporter output thrown away.
+            struct Null;
+            impl Reporter for Null {
+                fn report(&mut self, spans: Vec<SpanRecord>) {
+                    drop(spans);
+                }
+            }
+            let cancelable = sc.ends_with("cancelable");
+            fastrace::set_reporter(Null, Config::default().cancelable(cancelable).report_interval(Duration::from_secs(3600)));
+            std::thread::sleep(Duration::from_millis(30));
+            let round = |k: u128| {
+                for j in 0..20u128 {
+                    let id = 0xe000_0000 + k * 100 + j;
+                    let root = Span::root("root", SpanContext::new(TraceId(id), SpanId(1)));
+                    let child = Span::enter_with_parent("child", &root);
+                    let late = Span::enter_with_parent("late-child", &root);
+                    let other = Span::enter_with_parent("other-thread-child", &root);
+                    {
+                        let _g = child.set_local_parent();
+                        let _l = LocalSpan::enter_with_local_parent("local").with_property(|| ("k", "v"));
+                        LocalSpan::add_event(Event::new("e"));
+                    }
+                    child.add_property(|| ("p", "q"));
+                    drop(child);
+                    std::thread::spawn(move || {
+                        other.add_event(Event::new("from-thread"));
+                        drop(other);
+                    })
+                    .join()
+                    .unwrap();
+                    if j % 5 == 4 {
+                        root.cancel();
+                    }
+                    if j % 3 == 0 {
+                        fastrace::flush();
+                    }
+                    drop(root);
+                    fastrace::flush();
+                    // after the trace is over: a late child with late attachments, from two threads
+                    late.add_property(|| ("late", "1"));
+                    late.add_event(Event::new("late-event"));
+                    {
+                        let _g = late.set_local_parent();
+                        let _l = LocalSpan::enter_with_local_parent("late-local");
+                    }
+                    std::thread::spawn(move || drop(late)).join().unwrap();
+                    if j % 4 == 1 {
+                        let u = Span::root("unsampled", SpanContext::new(TraceId(id + 50), SpanId(1)).sampled(false));
+                        let _c = Span::enter_with_parent("unsampled-child", &u);
+                    }
+                }
+                for _ in 0..3 {
+                    fastrace::flush();
+                }
+            };
+            for k in 0..5 {
+                round(k);
+            }
+            let base = LIVE_BYTES.load(Ordering::SeqCst);
+            let mut series = vec![];
+            for k in 5..45 {
+                round(k);
+                series.push(LIVE_BYTES.load(Ordering::SeqCst) - base);
+            }
+            let growth = *series.last().unwrap();
+            let per_round = growth as f64 / 40.0;
+            extra = json!({"rounds": 40, "traces_per_round": 20, "live_heap_growth_bytes": growth, "growth_after_each_10_rounds": [series[9], series[19], series[29], series[39]]});
+            // a leak of one small entry per trace would be about 40 x 20 x 50 B = 40 kB; allocator
+            // noise (capacity of reused vectors, thread-local caches) stays far below
+            if growth > 24_000 && series[39] > series[19] && series[19] > series[4] {
+                panic!("live heap grew by {} bytes over 40 identical rounds of 20 finished traces ({:.0} B per round, still growing: {:?}): something of finished traces is retained", growth, per_round, [series[9], series[19], series[29], series[39]]);
+            }
+        }
+        "reconfigure-interval" => {
+            // tracing is configured with a long report interval first and re-configured with a
+            // short one later: from then on the short interval holds (no flush() here)
+            let r1 = Rep::default();
+            fastrace::set_reporter(r1.clone(), Config::default().report_interval(Duration::from_secs(3600)));
+            std::thread::sleep(Duration::from_millis(50));
+            {
+                let a = Span::root("first-config", SpanContext::new(TraceId(0xf001), SpanId(1)));
+                drop(a);
+            }
+            fastrace::flush();
+            let r2 = Rep::default();
+            fastrace::set_reporter(r2.clone(), Config::default().report_interval(Duration::from_millis(5)));
+            std::thread::sleep(Duration::from_millis(20));
+            let mut worst = 0u128;
+            for round in 0..5u128 {
+                {
+                    let root = Span::root("second-config", SpanContext::new(TraceId(0xf100 + round), SpanId(1)));
+                    let _c = Span::enter_with_parent("child", &root);
+                }
+                let t = Instant::now();
+                loop {
+                    let n = r2.0.lock().unwrap().iter().filter(|r| r.trace_id.0 == 0xf100 + round).count();
+                    if n == 2 {
+                        break;
+                    }
+                    if t.elapsed() > Duration::from_secs(4) {
+                        panic!("round {}: {} of 2 records were reported within 4 s after the reporter was re-configured from a 1 h to a 5 ms report interval, without flush()", round, n);
+                    }
+                    std::thread::sleep(Duration::from_millis(1));
+                }
+                worst = worst.max(t.elapsed().as_millis());
+            }
+            extra = json!({"rounds": 5, "worst_wait_ms": worst as u64});
+        }
+        "id-counter-wrap" => {
+            // 2^32 span ids on one thread: the per-thread counter wraps; no call may panic
+            // (about a minute in a debug build; thorough tier only)
+            let _rep = install(false);
+            let n: u64 = (1u64 << 32) + 1000;
+            let mut x = 0u64;
+            for _ in 0..n {
+                x ^= SpanId::next_id().0;
+            }
+            let root = Span::root("after-wrap", SpanContext::new(TraceId(0xf200), SpanId(1)));
+            let _c = Span::enter_with_parent("child", &root);
+            extra = json!({"ids_generated_on_one_thread": n, "xor": x});
         }
         "deep-backlog" => {
             // more finish signals parked in one episode than the ring has slots (10240): they must
